@@ -19,6 +19,7 @@ class Oracles:
     def __init__(self) -> None:
         self.ops_seen: Set[str] = set()
         self.flushes_active = 0
+        self.flush_actors: List[Any] = []
         self.forget_epoch = 0
         self.probe_mode = False
         self.scan_all_tasks = False
@@ -428,6 +429,24 @@ class Oracles:
         else:
             w.label("set_size:unoccupied")
 
+    def op_abandon(self, op: dict, ctx: dict) -> None:
+        """The caller of a blocked flush() is cancelled. asyncio.gather then cancels what flush was awaiting: tasks that sit
+        in their callbacks are disturbed by the *user's* cancellation; their callbacks are not owed any more, capacity is."""
+        w = self.w
+        live = [a for a in self.flush_actors if not a.done()]
+        if not live or ctx.get("task") is not None:
+            return
+        a = live[op.get("k", 0) % len(live)]
+        pm = getattr(a, "vt_pm", None)
+        a.vt_abandoned = True  # type: ignore[attr-defined]
+        if pm is not None:
+            for tm in pm.tasks.values():
+                if not tm.finished() and not tm.forgotten and (tm.in_cb or tm.body_done or not tm.started):
+                    tm.stray_ok = True
+                    tm.disturbed = True  # type: ignore[attr-defined]
+        a.cancel()
+        w.label("abandon:flush-caller-cancelled")
+
     # ================================================================== flush (C13) / gather_and_close (C08) / until_closed
     def flush_snapshot(self, pm: PoolM):
         must, may = [], []
@@ -454,6 +473,8 @@ class Oracles:
             w.label("flush:overlaps-callback")
         failed_before = [t for t in must if t.finished() and not t.atask.cancelled() and t.atask.exception() is not None]
         epoch = self.forget_epoch
+        me = asyncio.current_task()
+        self.flush_actors.append(me)
         self.flushes_active += 1
         if self.flushes_active >= 2:
             w.label("flush:overlapping-flushes")
@@ -477,6 +498,14 @@ class Oracles:
         if self.forget_epoch != epoch:
             failed_before = []      # another flush / close finished meanwhile and may have taken the failed task away first
         self.forget_epoch += 1
+        if getattr(me, "vt_abandoned", False):
+            # the caller gave up waiting (it was cancelled): whatever flush did or did not forget is open, nothing is owed
+            w.label("flush:abandoned-by-caller")
+            for tm in pm.tasks.values():
+                if not tm.forgotten and tm.finished():
+                    tm.may_forget = True
+            self.resolve_forgotten(pm)
+            return
         w.ev(f"flush returned raised={raised!r}")
         suspended = w.opno > start_op + 1
         if suspended:
@@ -1012,7 +1041,7 @@ class Oracles:
                         exc = tm.atask.exception()
                         if exc is not None and not self.is_injected(pm, exc):
                             w.fail({"C02", "C12", "C03"}, "final/task-failed-with-foreign-exception", f"{name}: {type(exc).__name__}: {exc}")
-                if tm.faults and tm.atask is not None and tm.atask.done():
+                if tm.faults and tm.atask is not None and tm.atask.done() and not getattr(tm, "disturbed", False):
                     # an exception raised by the task's coroutine or by one of its callbacks is what the task ends with
                     got = None if tm.atask.cancelled() else tm.atask.exception()
                     if not any(got is f for f in tm.faults):
@@ -1063,6 +1092,8 @@ class Oracles:
         name = f"{pm.name}#{tm.tid}"
         if tm.req is None and pm.spec["cls"] != "SimpleTaskPool":
             return
+        if getattr(tm, "disturbed", False):
+            return      # its callbacks were interrupted by the user's own cancellation of a flush() caller
         ecb, ccb = self.cb_specs(pm, tm)
         P = {"C03"}
         if ecb is not None:
